@@ -1,6 +1,6 @@
 """Single source for MANIFEST.json (bin/mkmanifest)."""
 
-HOOK_COMMITS = []   # filled by bin/mkmanifest callers: /repo commits that add guarded hooks
+HOOK_COMMITS = ["be704c0"]   # filled by bin/mkmanifest callers: /repo commits that add guarded hooks
 
 NOTES = ("All checks: bin/check <id>. Exit 0 = held, 1 = VIOLATION line + replay file, 2 = tool error (never a verdict). "
          "Specs under spec/<family>/, harness under harness/ (path deps on /repo; rebuilt by every check). "
@@ -28,6 +28,15 @@ CHECKS = {
                 text="Bounded is model-checked for max_runs 1,2,100 x 3 strategies x Kleene caps; per-partition run counts, Kleene lengths (via checkpoint()) and enumeration sizes of the real engine are checked by TLC at every recorded step; panics are recorded as events.",
                 note=SASE_NOTE),
 }
+
+WIN_NOTE = ("Trusted: TLC, the harness projection (ids of emitted windows, buffer via the public checkpoint()). Bounded: sizes/gaps/slides 1..5, "
+            "<= 10 arrivals generated, <= 120 recorded; engine-level runs observe count/sum/first/last of consecutive ids.")
+CHECKS["C12"] = dict(engine="tlc+vh", level="model_checking", ref="4.5", technique="TLA+ spec (Window.tla) model-checked with TLC; TLC behaviours replayed into the window structs and engine programs; recorded emissions validated by TLC (WindowTrace.tla)",
+                     text="ExactlyOnce/CountSize/TumblingSpan/SessionGaps are TLC invariants of the transcribed windows for all arrival+watermark sequences in the bound; every replayed/recorded execution of the real structs is checked by TLC for conformance and for the same invariants on the recorded emissions and buffers.",
+                     note=WIN_NOTE)
+CHECKS["C13"] = dict(engine="tlc+vh", level="model_checking", ref="4.5", technique="TLA+ spec (Window.tla) model-checked with TLC; TLC behaviours replayed into sliding windows and engine programs; recorded emissions validated by TLC",
+                     text="SlidingContent/SlidingTiming/SlidingCountShape/SlidingCountTiming are TLC invariants of the model and are evaluated by TLC on every recorded emission of the real sliding windows.",
+                     note=WIN_NOTE)
 
 NOT_APPLICABLE = {
     "C41": "parser totality over arbitrary strings: no state/transition system to specify; a TLA+ model would only enumerate token strings (fuzzing under another name)",
